@@ -466,6 +466,9 @@ def arr_getitem(A, idx):
             if stp == 1:
                 lo = X.const(0) if lo is None else _wrap(to_x(lo), c)
                 hi = c if hi is None else _wrap(to_x(hi), c)
+                # numpy clamps slice bounds to the axis: a[lo:hi] with hi beyond the end stops at the end
+                if hi.as_int() is not None and c.as_int() is not None and hi.as_int() > c.as_int(): hi = c
+                if lo.as_int() is not None and c.as_int() is not None and lo.as_int() > c.as_int(): lo = c
                 nv = fresh("t")
                 mapping[v] = lo + X.var(nv); out_axes.append((nv, hi - lo))
             else:
